@@ -131,6 +131,16 @@ func getenv() env {
 	return e
 }
 
+// memLimit is the heap size beyond which a run is aborted (VERIF_MEMLIMIT_MB, default 12 GiB).
+func memLimit() uint64 {
+	if v := os.Getenv("VERIF_MEMLIMIT_MB"); v != "" {
+		if n, err := strconv.ParseUint(v, 10, 64); err == nil && n > 0 {
+			return n << 20
+		}
+	}
+	return 12 << 30
+}
+
 // Tier reports the tier of this run ("quick" or "thorough").
 func Tier() string { return getenv().tier }
 
@@ -303,6 +313,35 @@ func (c Class[C]) run(rc *runCtx) *classReport {
 			case <-stopWatch:
 				return
 			case <-tk.C:
+				// Memory guard: a case that makes the code under test allocate
+				// without bound must not take the machine down. Treated like a hang.
+				var ms runtime.MemStats
+				runtime.ReadMemStats(&ms)
+				if ms.HeapAlloc > memLimit() {
+					var raws [][]byte
+					for _, cu := range curs {
+						if cu.since.Load() != 0 {
+							if d := cu.data.Load(); d != nil {
+								raws = append(raws, *d)
+							}
+						}
+					}
+					sig := "memory-blowup-inconclusive"
+					if c.HangIsViolation {
+						sig = "memory-blowup"
+					}
+					mu.Lock()
+					for _, raw := range raws {
+						path := writeReplay(rc, c.Name, sig, raw)
+						rep.Violations = append(rep.Violations, violation{c.Name, sig, fmt.Sprintf("heap grew beyond %d MiB while this case was running (one of %d cases in flight)", memLimit()>>20, len(raws)), path})
+						rep.NViolations++
+						rep.SigCounts[sig]++
+					}
+					mu.Unlock()
+					flush(rc, false, rep)
+					fmt.Fprintf(os.Stderr, "verifkit: heap beyond limit in class %s; %d cases in flight\n", c.Name, len(raws))
+					os.Exit(8)
+				}
 				now := time.Now().UnixNano()
 				for _, cu := range curs {
 					s := cu.since.Load()
